@@ -35,6 +35,7 @@ class Ctx:
         if self._dep is None:
             from .flow import DepEngine
             self._dep = DepEngine(self.prog)
+            self.prog._dep_engine = self._dep      # lets binding helpers expand **kwargs through reaching definitions
         return self._dep
 
     @property
